@@ -634,7 +634,7 @@ func lostUpdates(r *core.Run, f *ssa.Function) []lostUpdate {
 // call that receives the record (by value or address) and can write the store.
 type unpersistedSite struct {
 	Fn    *ssa.Function
-	Store *ssa.Store
+	Store ssa.Instruction
 	Type  string
 	Field string
 	Path  []*ssa.BasicBlock
@@ -674,7 +674,7 @@ func unpersisted(r *core.Run, f *ssa.Function, typeNames map[string]bool) []unpe
 					continue
 				}
 				_, cs := res.CalleeName(c.Common())
-				if len(cs) > 0 && hasWrites(r, cs) {
+				if len(cs) > 0 && persistsRecord(r, cs, shortTypeName(al.Type())) {
 					m[b] = append(m[b], i)
 				}
 			}
@@ -699,25 +699,48 @@ func unpersisted(r *core.Run, f *ssa.Function, typeNames map[string]bool) []unpe
 	}
 	for _, b := range f.Blocks {
 		for i, ins := range b.Instrs {
-			st, ok := ins.(*ssa.Store)
-			if !ok {
-				continue
-			}
-			fa, ok := st.Addr.(*ssa.FieldAddr)
-			if !ok {
-				continue
-			}
-			// innermost record: walk nested FieldAddr up to the Alloc
-			root := fa.X
-			for {
-				if f2, ok := root.(*ssa.FieldAddr); ok {
-					root = f2.X
+			var al *ssa.Alloc
+			var st ssa.Instruction
+			field := ""
+			switch x := ins.(type) {
+			case *ssa.Store:
+				fa, ok := x.Addr.(*ssa.FieldAddr)
+				if !ok {
 					continue
 				}
-				break
-			}
-			al, ok := root.(*ssa.Alloc)
-			if !ok {
+				// innermost record: walk nested FieldAddr up to the Alloc
+				root := fa.X
+				for {
+					if f2, ok := root.(*ssa.FieldAddr); ok {
+						root = f2.X
+						continue
+					}
+					break
+				}
+				a, ok := root.(*ssa.Alloc)
+				if !ok {
+					continue
+				}
+				al, st, field = a, x, fieldPath(fa)
+			case ssa.CallInstruction:
+				// the record handed by pointer to a function that assigns fields of it (and does not persist it)
+				for j, a := range x.Common().Args {
+					a2, ok := a.(*ssa.Alloc)
+					if !ok || x.Common().IsInvoke() {
+						continue
+					}
+					g := x.Common().StaticCallee()
+					if g == nil || !typeNames[shortTypeName(a2.Type())] {
+						continue
+					}
+					if fl := mutatedFields(r, g, j, 0); len(fl) > 0 && !persistsRecord(r, []*ssa.Function{g}, shortTypeName(a2.Type())) {
+						al, st, field = a2, x, shortTypeName(a2.Type())+"."+fl[0]+" (assigned in "+r.P.Name(g)+")"
+					}
+				}
+				if al == nil {
+					continue
+				}
+			default:
 				continue
 			}
 			tn := shortTypeName(al.Type())
@@ -762,7 +785,88 @@ func unpersisted(r *core.Run, f *ssa.Function, typeNames map[string]bool) []unpe
 				}
 			}
 			if path := forwardAvoid(b, blocked, nil, func(x *ssa.BasicBlock) bool { return succ[x] }); path != nil {
-				out = append(out, unpersistedSite{f, st, tn, fieldPath(fa), path})
+				out = append(out, unpersistedSite{f, st, tn, field, path})
+			}
+		}
+	}
+	return out
+}
+
+// persistsRecord: the callees (transitively) write the store prefix that holds records of the named type
+// ("<Type>/value/"); when the module has no such prefix at all, any store write counts.
+func persistsRecord(r *core.Run, cs []*ssa.Function, typeName string) bool {
+	base := typeName
+	if i := strings.LastIndex(base, "."); i >= 0 {
+		base = base[i+1:]
+	}
+	pfx := base + "/value/"
+	for _, e := range r.Eff.Reach(cs...) {
+		if e.Kind == "store.set" && e.Prefix == pfx {
+			return true
+		}
+	}
+	known := false
+	for _, f := range r.P.SortedFuncs(r.ConsensusFuncs()) {
+		for _, e := range r.Eff.Own[f] {
+			if e.Kind == "store.set" && e.Prefix == pfx {
+				known = true
+			}
+		}
+	}
+	if known {
+		return false
+	}
+	return hasWrites(r, cs)
+}
+
+// mutatedFields: names of fields of the record behind pointer parameter idx that g assigns (directly or by handing the
+// pointer on).
+func mutatedFields(r *core.Run, g *ssa.Function, idx int, depth int) []string {
+	if g == nil || idx >= len(g.Params) || depth > 3 || len(g.Blocks) == 0 {
+		return nil
+	}
+	p := g.Params[idx]
+	if _, isPtr := p.Type().Underlying().(*types.Pointer); !isPtr {
+		return nil
+	}
+	seen := map[string]bool{}
+	var out []string
+	for _, b := range g.Blocks {
+		for _, ins := range b.Instrs {
+			switch x := ins.(type) {
+			case *ssa.Store:
+				fa, ok := x.Addr.(*ssa.FieldAddr)
+				if !ok {
+					continue
+				}
+				root := fa.X
+				name := fieldNameT(fa.X.Type(), fa.Field)
+				for {
+					if f2, ok := root.(*ssa.FieldAddr); ok {
+						name = fieldNameT(f2.X.Type(), f2.Field)
+						root = f2.X
+						continue
+					}
+					break
+				}
+				if root == ssa.Value(p) && !seen[name] {
+					seen[name] = true
+					out = append(out, name)
+				}
+			case ssa.CallInstruction:
+				if x.Common().IsInvoke() {
+					continue
+				}
+				for j, a := range x.Common().Args {
+					if a == ssa.Value(p) {
+						for _, n := range mutatedFields(r, x.Common().StaticCallee(), j, depth+1) {
+							if !seen[n] {
+								seen[n] = true
+								out = append(out, n)
+							}
+						}
+					}
+				}
 			}
 		}
 	}
